@@ -15,3 +15,15 @@ claim('C19',
       'Coq theorem: the emitted diagnostics are independent of the iteration order of the message map (any permutation of its keys), every other unordered container being lookup-only (inventory regenerated from the source). Oracle: same input twice in one process and in k fresh processes, byte comparison.',
       COMMON_NOTE,
       'Coq proof (order-independence of sorted emission) + regenerated inventory of unordered containers + multi-process byte comparison', '4 C19')
+claim('C04',
+      'Coq theorems: (i) the regenerated instruction tables (match arms + appl_* functions) give every one of the 24 names exactly the kinds and fallibility the regenerated README tables document, and no other name is a trait instruction; (ii) for every parsed input the impl contexts are a permutation of the (kind, fallibility, instruction) triples requested - none missing, none extra; (iii) the requested multiset is invariant under permuting the instructions; (iv) every item is an instance of the regenerated quote! skeleton of its (kind, fallibility), and the six skeletons spell the documented trait path, method and `type Error = <declared>`. Oracle: headers read off the implementation\'s tokens vs the README-derived expectation on the full name x counterpart-form x error-form grid and on random multisets; permuted instruction lists re-expanded and compared.',
+      COMMON_NOTE + ' Observation for the tie: multiset of impl headers (+ diagnostics).',
+      'Coq proof (finite table theorems by vm_compute on regenerated tables + Permutation theorem over all instruction lists) + header-multiset correspondence + README-derived header oracle', '4 C04')
+claim('C10',
+      'Coq theorems by nested induction over token trees of any depth: on the flattened token sequence substitution replaces each `~` leaf by the path and each `@` leaf by the source object and leaves every other leaf and delimiter in place and in order (literals are never markers); per impl type what the two markers stand for; and for every expression site (vars, return, member instruction on either side, ghost, ghosts, nested parent instruction) that the rendered tokens are quote_action of the user tokens with the stated path. Oracle: random token trees (depth <= 5, joint punctuation, literals containing the characters, lifetimes) in 14 accepting positions; the expected substituted token sequence must occur contiguously in the right impls of the implementation\'s output.',
+      COMMON_NOTE + ' Observation for the tie: the full token sequence.',
+      'Coq proof (structural induction on token trees) + full-token correspondence + substituted-sequence search on implementation output', '4 C10')
+claim('C12',
+      'Coq theorems: on the regenerated tables a shortcut applies to exactly the union of the kinds of the basic instructions the README says it abbreviates, with the same fallibility; basics parse to single-kind applicability; member-level and nested-parent-level names mean the same; ghost/ghosts are the union of their _owned/_ref forms. Lifting: splitting a trait instruction into its single-kind instructions at the same position requests the same impl contexts; splitting a member instruction leaves every per-kind dedicated-then-default lookup unchanged (for all lists, positions, kinds, counterparts). Oracle: every generated input containing a shortcut (type, field, variant, variant field, nested-parent level; ghost/ghosts pairs) is rewritten into its basics and both are expanded by the implementation: same verdict, same multiset of impls.',
+      COMMON_NOTE + ' Observation for the tie: the full token sequence.',
+      'Coq proof (finite table theorems on regenerated tables + list lemmas for all instruction lists) + metamorphic shortcut-vs-basics comparison on the implementation', '4 C12')
